@@ -1,6 +1,6 @@
 """C06 - operations never change the value of their operands (histories of public operations)."""
 from vt.props import c05
-from vt.props.c05 import strategy, strategy_case, features, BUDGET, SHRINK, enumerate_cases, ENUM_DOC  # noqa
+from vt.props.c05 import strategy, strategy_case, features, BUDGET, SHRINK, enumerate_cases, ENUM_DOC, FUZZ, from_bytes  # noqa
 
 RULE = ("Same model-based history generator as C05 (programs of up to 30 public operations over a pool of live objects, "
         "operands chosen by construction, views such as t(), conj(), to_ttm(), slices, detach(), sum(index) fed into later "
